@@ -61,6 +61,7 @@ var imports = map[string][]importSpec{
 		{"C09", `^C09\.H6$`, `ends for good`, "no accepted telegram is lost while the tunnel is open: a received frame never terminates the tunnel"},
 	},
 	"C05": {
+		{"C12", `^C12\.out$`, `buildGroupOutbound`, "the telegram a group Send hands to the tunnel is the one built for that call: a builder that assembles it in shared storage lets concurrent Sends put one telegram on the bus twice and another never"},
 		{"C02", `^C02\.layout$`, `knxnet\.TunnelRes|knxnet\.TunnelReq`, "requests and acknowledgements survive the wire"},
 		{"C02", `^C02\.(layout|dispatch)$`, `^knxnet\.UnpackHeader|^knxnet\.Unpack `, "every frame is received through the header decoder and the service dispatcher"},
 		{"C03", `^C03\.`, ``, "per-exchange sender rules (one request outstanding, identical retransmissions, counter advanced by the matching acknowledgement only)"},
@@ -117,6 +118,9 @@ var imports = map[string][]importSpec{
 		{"C13", `^C13\.P3$`, `lock on every path|one timer release`, "the send lock taken for a busy period is released exactly once: otherwise no Send ever gets through again (or the process dies unlocking twice)"},
 		{"C01", `^C01\.c$`, kRouterPath, "a delivered indication must not change afterwards"},
 	},
+	"C15": {
+		{"C02", `^C02\.packable$`, ``, "encoding never panics: util.Pack fails at run time on an item that is neither one of its primitive cases nor Packable"},
+	},
 	"C16": {
 		{"C01", `^C01\.d$`, `serveTCPSocket|serveUDPSocket`, "the receiver goroutine ends when the peer closes: no round of the receive loop leaves the stream where it was"},
 		{"C02", `^C02\.dispatch$`, `knx/knxnet\.`, "every well-formed frame is surfaced as the service it is"},
@@ -127,6 +131,7 @@ var imports = map[string][]importSpec{
 		{"C09", `^C09\.H1$`, `keeps the caller's other settings`, "the connect request advertises the local endpoint when configured to: the configuration normaliser hands SendLocalAddress through"},
 	},
 	"C17": {
+		{"C12", `^C12\.in$`, `event\.`, "what arrives in order is what was accepted: an event filled from shared storage shows a later telegram in an earlier position"},
 		{"C12", `^C12\.in$`, `starts the forwarder|wires client`, "group events keep the order of the client's Inbound only when one forwarder drains it: the forwarder is wired to the client's channel and started exactly once with the client"},
 		{"C04", `^C04\.R2$`, ``, "a telegram is handed over once, when it is accepted: a repetition is not handed over again"},
 		{"C02", `^C02\.(layout|dispatch)$`, `^knxnet\.UnpackHeader|^knxnet\.Unpack `, "every frame is received through the header decoder and the service dispatcher"},
